@@ -302,7 +302,12 @@ const EXTRA_RULES: &str = "rule other {\n  a exists\n}\n";
 
 fn gen_tcase(u: &mut Choices) -> TCase {
     let rules_broken = u.chance(1, 6);
-    let rules = if rules_broken { "rule chk {\n  a == \n}\n".to_string() } else { "rule chk {\n  a == 1\n}\nrule ok {\n  b == 'x'\n}\nrule sk when zz exists {\n  a == 1\n}\n".to_string() };
+    // a rules file without any rule (comments only): nothing to evaluate, but the test file must
+    // still be read
+    let rules_blank = !rules_broken && u.chance(1, 8);
+    let rules = if rules_blank {
+        "# only a comment\n\n".to_string()
+    } else if rules_broken { "rule chk {\n  a == \n}\n".to_string() } else { "rule chk {\n  a == 1\n}\nrule ok {\n  b == 'x'\n}\nrule sk when zz exists {\n  a == 1\n}\n".to_string() };
     let spec_kind = *u.pick(&["ok", "ok", "ok", "malformed", "unknown-status"]);
     let mismatch = u.chance(1, 2);
     let ncases = u.range(1, 3);
@@ -364,6 +369,11 @@ fn check_test(c: &TCase) -> Result<(String, i32), (String, String)> {
     }
     let st = r.status();
     let all_parse = !c.rules_broken && c.spec_kind == "ok" && !c.extra.iter().any(|(_, k)| k == "broken-rules" || k == "malformed-spec");
+    let blank = !c.rules_broken && !c.rules.contains("rule ");
+    if blank && all_parse && c.extra.iter().all(|(_, k)| k == "good" || k == "no-tests") {
+        // expectations that name rules of a file without rules: the statement does not say
+        return Ok(("unspecified".to_string(), st));
+    }
     let want = if all_parse {
         if c.mismatch || c.extra.iter().any(|(_, k)| k == "mismatch") {
             "7"
@@ -381,7 +391,7 @@ fn check_test(c: &TCase) -> Result<(String, i32), (String, String)> {
     if !ok {
         return Err((
             format!("test ({}{:?}, rules broken={}, spec {}, mismatch={}, further guard files {:?}) exits {}, expected {} ; {}", if c.dir_layout { "--dir, " } else { "" }, c.fmt, c.rules_broken, c.spec_kind, c.mismatch, c.extra, st, want, r.brief()),
-            format!("c06:test:{}:{}:{}", want, if c.rules_broken { "rules-broken" } else { c.spec_kind }, if c.dir_layout { "dir" } else { "file" }),
+            format!("c06:test:{}:{}:{}", want, if c.rules_broken { "rules-broken".to_string() } else if blank { format!("rules-without-rules+spec-{}", c.spec_kind) } else { c.spec_kind.to_string() }, if c.dir_layout { "dir" } else { "file" }),
         ));
     }
     Ok((want.to_string(), st))
@@ -445,7 +455,7 @@ pub fn replay(case: &J) -> CaseResult {
 
 pub fn run(tier: Tier, seed: u64) -> i32 {
     let spec = EvidenceSpec {
-        rule: "validate: 1-3 rules files of kind {all-PASS, some-FAIL, all-SKIP, blank, syntactically broken (6 shapes), evaluation error (3 shapes)} x 1-3 data files of kind {compliant, non-compliant, not applicable (every guarded rule SKIPs), malformed (4 shapes), empty} in generated order x invocation {plain, --structured json/yaml/junit/sarif, --payload plain/structured, data on stdin, rules and data as directories, a missing path}. The expected exit code is computed from facts established through other code paths: `parse-tree` decides whether a rules text parses, run_checks decides the status of every (rules, data) pair alone; then 0 / 19 / 5 / any non-zero / error-not-0-or-19 by the rule of the property statement. Stage 'validate-binary' runs the same through the real cfn-guard binary (process exit status, `main`'s Err -> 255). test: rules {ok, broken} x spec {ok, malformed, unknown status word} x {all expectations met, one mismatch} x {single file, --dir with 0-3 further guard files (sorting before / after, in sub-directories; good, with a mismatch, broken rules, malformed spec, without tests)} x {console, json, yaml, junit}: 0 / 7 / non-zero. Non-trivial: the pairs of the run have at least two different individual outcomes; distinct by hash of all texts and the invocation.".into(),
+        rule: "validate: 1-3 rules files of kind {all-PASS, some-FAIL, all-SKIP, blank, syntactically broken (6 shapes), evaluation error (3 shapes)} x 1-3 data files of kind {compliant, non-compliant, not applicable (every guarded rule SKIPs), malformed (4 shapes), empty} in generated order x invocation {plain, --structured json/yaml/junit/sarif, --payload plain/structured, data on stdin, rules and data as directories, a missing path}. The expected exit code is computed from facts established through other code paths: `parse-tree` decides whether a rules text parses, run_checks decides the status of every (rules, data) pair alone; then 0 / 19 / 5 / any non-zero / error-not-0-or-19 by the rule of the property statement. Stage 'validate-binary' runs the same through the real cfn-guard binary (process exit status, `main`'s Err -> 255). test: rules {ok, broken, comment-only} x spec {ok, malformed, unknown status word} x {all expectations met, one mismatch} x {single file, --dir with 0-3 further guard files (sorting before / after, in sub-directories; good, with a mismatch, broken rules, malformed spec, without tests)} x {console, json, yaml, junit}: 0 / 7 / non-zero. Non-trivial: the pairs of the run have at least two different individual outcomes; distinct by hash of all texts and the invocation.".into(),
         assumptions: vec!["`well-formed data` for the expectation is decided by serde_yaml accepting the text (the data kinds are chosen so that all loaders agree)".into()],
     };
     execute("C06", tier, seed, spec, &replay, &|run: &Session| {
